@@ -677,6 +677,208 @@ do_comp(const struct rc_day *p, int c, struct dt_dt_s v, int k, int a, int b, in
 	return bad;
 }
 
+/* ---- ZONE: --from-zone with dates or durations on stdin ----
+ * dadd --from-zone Z -z Z: date units step the CIVIL date (the time of day stays), time units
+ * add elapsed seconds; the argument form does that.  The same must hold when the dates come
+ * from stdin (plain, -S, -E) and when the durations come from stdin.  dadd binary; oracle: the
+ * model (civil date stepped by the month/day/business-day model, time of day kept; for time
+ * units the zone's offset rule written out here: Europe/Berlin = UTC+1, +2 from the last
+ * Sunday of March 01:00 UTC to the last Sunday of October 01:00 UTC; Asia/Kolkata = UTC+5:30).
+ * Civil times 00:30, 12:00, 23:30 exist exactly once on every day in both zones. */
+static const char *const zn_name[] = {"Europe/Berlin", "Asia/Kolkata"};
+#define NZN	2
+static const int zn_tod[] = {1800, 43200, 84600};
+struct zdur_s {
+	const char *txt;
+	int kind;	/* 0 months, 1 days, 2 business days, 3 seconds */
+	long n;
+	const char *unit;
+};
+static const struct zdur_s zdurs[] = {
+	{"+1mo", 0, 1, "mo"}, {"-1mo", 0, -1, "mo"}, {"+1y", 0, 12, "y"}, {"+1d", 1, 1, "d"}, {"-1d", 1, -1, "d"}, {"+1w", 1, 7, "w"}, {"+1b", 2, 1, "b"},
+	{"+24h", 3, 86400, "h"}, {"-1h", 3, -3600, "h"}, {"+90m", 3, 5400, "m"}, {"+86400s", 3, 86400, "s"},
+};
+#define NZDUR	((int)(sizeof(zdurs) / sizeof(*zdurs)))
+enum { ZM_STDIN, ZM_SED, ZM_EMPTY, ZM_ARGS, ZM_DURS_STDIN, NZMODE };
+static const char *const zm_name[NZMODE] = {"dates-on-stdin", "dates-on-stdin-S", "dates-on-stdin-E", "arguments", "durations-on-stdin"};
+#define ZYEAR	2012
+
+static int
+last_sunday(int y, int m)
+{
+	int rd = rc_rd(y, m, rc_mlen(y, m));
+	while (rc_tab[rd].wd != 7) {
+		rd--;
+	}
+	return rd;
+}
+
+/* offset of zone ZI at the UTC instant U (seconds since 1970) */
+static long
+zn_offset(int zi, long long u)
+{
+	if (zi == 1) {
+		return 19800;
+	}
+	{
+		int y = rc_get((int)(RC_RD_1970 + u / 86400))->y;
+		long long a = (long long)rc_get(last_sunday(y, 3))->unixd * 86400LL + 3600;
+		long long b = (long long)rc_get(last_sunday(y, 10))->unixd * 86400LL + 3600;
+		return 3600 + ((u >= a && u < b) ? 3600 : 0);
+	}
+}
+
+/* expected civil text for civil day RD at TOD in zone ZI plus duration D; 0 if not judged */
+static int
+zn_expect(int zi, int rd, int tod, const struct zdur_s *d, char *exp, size_t esz)
+{
+	const struct rc_day *p = rc_get(rd), *t;
+	if (d->kind == 3) {
+		long long l = (long long)p->unixd * 86400LL + tod, u = -1, r;
+		/* the one UTC instant whose civil time is l */
+		for (long off = 3600; off <= 19800; off += 1800) {
+			if (zn_offset(zi, l - off) == off) {
+				u = l - off;
+			}
+		}
+		if (u < 0) {
+			return 0;
+		}
+		u += d->n;
+		r = u + zn_offset(zi, u);
+		t = rc_get((int)(RC_RD_1970 + r / 86400));
+		snprintf(exp, esz, "%04d-%02d-%02dT%02lld:%02lld:%02lld", t->y, t->m, t->d, r % 86400 / 3600, r % 3600 / 60, r % 60);
+		return 1;
+	}
+	if (d->kind == 0) {
+		struct tgt_s tg = model_target(C_YMD, p, (int)d->n);
+		if (!tg.ok) {
+			return 0;
+		}
+		t = rc_get(tg.rd);
+	} else if (d->kind == 1) {
+		t = rc_get(rd + (int)d->n);
+	} else {
+		t = rc_get(bz_target(rd, (int)d->n));
+	}
+	snprintf(exp, esz, "%04d-%02d-%02dT%02d:%02d:%02d", t->y, t->m, t->d, tod / 3600, tod / 60 % 60, tod % 60);
+	return 1;
+}
+
+static void
+zone_job(int job)
+{
+	int zi = job % NZN, di = job / NZN % NZDUR, mode = job / NZN / NZDUR;
+	const struct zdur_s *d = zdurs + di;
+	const char *rundir = getenv("VERIF_RUNDIR");
+	char fin[512], fout[512], cmd[1600], line[160], exp[64], key[160], cas[64], zf[256];
+	int y0 = rc_yearstart[ZYEAR], y1 = rc_yearstart[ZYEAR + 1];
+	FILE *fp;
+	EX_CTR(c_bind, "cli_binding_replays");
+	EX_CTR(c_bindln, "cli_binding_lines");
+	EX_CTR(c_zone, "zone cases (zone, duration, civil date-time, input mode) compared with the model");
+	EX_CTR(c_nozone, "skipped:zone section, zone file not installed");
+
+	if (rundir == NULL || ex.tree == NULL) {
+		return;
+	}
+	snprintf(zf, sizeof(zf), "/usr/share/zoneinfo/%s", zn_name[zi]);
+	if (access(zf, R_OK)) {
+		++*c_nozone;
+		return;
+	}
+	snprintf(key, sizeof(key), "zone mode=%s zone=%s unit=%s sign=%c", zm_name[mode], zn_name[zi], d->unit, d->txt[0]);
+	snprintf(cas, sizeof(cas), "zone %d", job);
+	snprintf(fin, sizeof(fin), "%s/c04zone.%d.in", rundir, job);
+	snprintf(fout, sizeof(fout), "%s/c04zone.%d.out", rundir, job);
+	if (mode <= ZM_EMPTY) {
+		/* every day of the year x three times of day on stdin */
+		if ((fp = fopen(fin, "w")) == NULL) {
+			return;
+		}
+		for (int rd = y0; rd < y1; rd++) {
+			for (int k = 0; k < 3; k++) {
+				const struct rc_day *p = rc_get(rd);
+				fprintf(fp, "%04d-%02d-%02dT%02d:%02d:%02d\n", p->y, p->m, p->d, zn_tod[k] / 3600, zn_tod[k] / 60 % 60, 0);
+			}
+		}
+		fclose(fp);
+		snprintf(cmd, sizeof(cmd), "'%s/src/dadd'%s --from-zone %s -z %s -- %s < '%s' > '%s' 2>/dev/null", ex.tree,
+			 mode == ZM_SED ? " -S" : mode == ZM_EMPTY ? " -E" : "", zn_name[zi], zn_name[zi], d->txt, fin, fout);
+		if (system(cmd)) {
+			;
+		}
+		++*c_bind;
+		if ((fp = fopen(fout, "r")) == NULL) {
+			return;
+		}
+		for (int rd = y0; rd < y1; rd++) {
+			for (int k = 0; k < 3; k++) {
+				const struct rc_day *p = rc_get(rd);
+				if (!fgets(line, sizeof(line), fp)) {
+					line[0] = '\0';
+				}
+				line[strcspn(line, "\n")] = '\0';
+				++*c_bindln;
+				if (!zn_expect(zi, rd, zn_tod[k], d, exp, sizeof(exp))) {
+					continue;
+				}
+				++*c_zone;
+				ex_outcome(ex_hash(line, strlen(line)));
+				if (strcmp(line, exp)) {
+					snprintf(cmd, sizeof(cmd), "echo %04d-%02d-%02dT%02d:%02d:00 | dadd%s --from-zone %s -z %s -- %s", p->y, p->m, p->d,
+						 zn_tod[k] / 3600, zn_tod[k] / 60 % 60, mode == ZM_SED ? " -S" : mode == ZM_EMPTY ? " -E" : "", zn_name[zi], zn_name[zi], d->txt);
+					ex_viol(key, rd, cas, cmd, "civil %04d-%02d-%02dT%02d:%02d:00 %s %s: printed '%s', the model gives '%s'", p->y, p->m, p->d,
+						zn_tod[k] / 3600, zn_tod[k] / 60 % 60, zn_name[zi], d->txt, line, exp);
+				}
+			}
+		}
+		fclose(fp);
+		unlink(fin);
+		unlink(fout);
+	} else {
+		/* one process per date: every 7th day at 12:00 (and 00:30) */
+		for (int rd = y0; rd < y1; rd += 7) {
+			for (int k = 0; k < 2; k++) {
+				const struct rc_day *p = rc_get(rd);
+				FILE *pp;
+				if (mode == ZM_ARGS) {
+					snprintf(cmd, sizeof(cmd), "'%s/src/dadd' --from-zone %s -z %s %04d-%02d-%02dT%02d:%02d:00 -- %s 2>/dev/null", ex.tree,
+						 zn_name[zi], zn_name[zi], p->y, p->m, p->d, zn_tod[k] / 3600, zn_tod[k] / 60 % 60, d->txt);
+				} else {
+					snprintf(cmd, sizeof(cmd), "echo '%s' | '%s/src/dadd' --from-zone %s -z %s %04d-%02d-%02dT%02d:%02d:00 2>/dev/null", d->txt, ex.tree,
+						 zn_name[zi], zn_name[zi], p->y, p->m, p->d, zn_tod[k] / 3600, zn_tod[k] / 60 % 60);
+				}
+				line[0] = '\0';
+				if ((pp = popen(cmd, "r")) != NULL) {
+					if (!fgets(line, sizeof(line), pp)) {
+						line[0] = '\0';
+					}
+					pclose(pp);
+				}
+				line[strcspn(line, "\n")] = '\0';
+				++*c_bind;
+				if (!zn_expect(zi, rd, zn_tod[k], d, exp, sizeof(exp))) {
+					continue;
+				}
+				++*c_zone;
+				if (strcmp(line, exp)) {
+					if (mode == ZM_ARGS) {
+						snprintf(cmd, sizeof(cmd), "dadd --from-zone %s -z %s %04d-%02d-%02dT%02d:%02d:00 -- %s", zn_name[zi], zn_name[zi], p->y, p->m, p->d,
+							 zn_tod[k] / 3600, zn_tod[k] / 60 % 60, d->txt);
+					} else {
+						snprintf(cmd, sizeof(cmd), "echo '%s' | dadd --from-zone %s -z %s %04d-%02d-%02dT%02d:%02d:00", d->txt, zn_name[zi], zn_name[zi], p->y, p->m, p->d,
+							 zn_tod[k] / 3600, zn_tod[k] / 60 % 60);
+					}
+					ex_viol(key, rd, cas, cmd, "civil %04d-%02d-%02dT%02d:%02d:00 %s %s: printed '%s', the model gives '%s'", p->y, p->m, p->d,
+						zn_tod[k] / 3600, zn_tod[k] / 60 % 60, zn_name[zi], d->txt, line, exp);
+				}
+			}
+		}
+	}
+}
+#define NZONEJOBS	(NZN * NZDUR * NZMODE)
+
 /* ---- binding ---- */
 struct bind_s {
 	int cal;
@@ -934,6 +1136,13 @@ main(int argc, char *argv[])
 		if (!strncmp(ex.cas, "bind ", 5)) {
 			return replay_binding(ex.cas + 5);
 		}
+		if (!strncmp(ex.cas, "zone ", 5)) {
+			int job = atoi(ex.cas + 5);
+			if (job >= 0 && job < NZONEJOBS) {
+				zone_job(job);
+			}
+			return ex_replay_result(ex.nviol != 0, "zone job %d", job);
+		}
 		if (!strncmp(ex.cas, "spell ", 6)) {
 			check_spellings(spellings, NSPELL);
 			return ex_replay_result(ex.nviol != 0, "documented duration spellings");
@@ -993,7 +1202,10 @@ main(int argc, char *argv[])
 		"are applied one after the other, not commutative): a month/year step and a day/week/business-day step in one invocation, both orders, are judged by 'crop, then step': "
 		"each step starts from the valid date the previous one denotes; also a +9h step on a T23:00:00 value after a month/year step (what an output zone does); one class per "
 		"(calendar, order, units, sign of the day step, cropped) with all three observations in the detail; in bizda sequences through a weekend day are skipped. the documented "
-		"spellings nY nMO (upper/lower case, sign omitted) must parse like the canonical text. non-trivial = the model crops, or the year changes");
+		"spellings nY nMO (upper/lower case, sign omitted) must parse like the canonical text. ZONE section (dadd binary, --from-zone Z -z Z, Z in Europe/Berlin Asia/Kolkata, every day of "
+		"2012 at 00:30 12:00 23:30): date units step the civil date and keep the time of day, time units add elapsed seconds (offset rule written out in the explorer), whether the dates "
+		"come as argument or on stdin (plain, -S, -E) and whether the durations come as arguments or on stdin. ywd/yd + months: not claimed (C04 names the week-based calendars for years only). "
+		"non-trivial = the model crops, or the year changes");
 	ex_meta("bound", "%s tier: single steps: %s x ( +-[0,40] + {48,60,100,120,400,1200,4800} months; +-[0,8] + {40,100,400} quarters; +-[0,12] + {28,100,400} years ); "
 		"composition: %s x all (a,b) in [-%d,%d]^2 x 4 kinds; mixed sequences: %s x first step +-{1,2,3,6,11,12,13}mo, +-{1,2,3,4}y x second step +-{1,2,7,28,31}d, "
 		"+-{1,4,52}w, +-{1,2,5,21}b in both orders, and +9h after the month/year step on T23:00:00 values (ymd ymcw ywd bizda); binding runs: %d dadd + %d dseq",
@@ -1104,6 +1316,11 @@ main(int argc, char *argv[])
 					  p->isbd ? "" : " weekend", single ? "all single month/quarter/year steps in 5 calendars + spellings" : "",
 					  comp ? "; all compositions (a,b) in [-14,14]^2 x 4 kinds" : "");
 			}
+		}
+	}
+	for (int job = 0; job < NZONEJOBS && !ex_expired_now(); job++) {
+		if (ex_mine((uint64_t)job)) {
+			zone_job(job);
 		}
 	}
 	{
